@@ -2,7 +2,7 @@
    [vm_compute] per configuration) lifted through the soundness theorems of the checker. *)
 From Coq Require Import List Bool Arith String.
 Import ListNotations.
-From BQ Require Import wf.WfAst wf.State wf.Contracts wf.Abs wf.AbsThm wf.Run wf.Check wf.Spec.
+From BQ Require Import wf.WfAst wf.State wf.Contracts wf.ContractsThm wf.Abs wf.AbsThm wf.Run wf.Check wf.Spec.
 From BQ Require Import gen.Workflows gen.WorkflowThms.
 
 Definition entry := (string * meta * pass)%type.
@@ -126,4 +126,25 @@ Lemma c01_full_from_contracts : forall (conc : Type) (alpha : conc -> astate)
 Proof.
   intros conc alpha cexec preserved Hsim Hpost n m w H x x' Hin Hex.
   destruct (Hsim _ _ _ _ Hex) as [k Hk]. apply Hpost. eapply c01_workflow_preserves; eauto.
+Qed.
+
+Lemma c01_contract_measurements : forall c,
+  triple c LExtractMeas (fun s => ms s = MIn) (fun s s' => ms s' = MOut /\ sem s' = sem s /\ msbad s' = msbad s)
+  /\ triple c LRestoreMeas (fun s => ms s = MOut) (fun s s' => ms s' = MBack /\ sem s' = sem s /\ msbad s' = msbad s)
+  /\ (forall l, In l [LApplyPlacement; LSabreRoute; LPamRoute; LFill; LGreedyPlace; LSabreLayout; LPamLayout; LSetModel] ->
+      triple c l (fun s => ms s = MBack) (fun s s' => msbad s' = true)).
+Proof.
+  intros c. split; [apply triple_extract_meas | split; [apply triple_restore_meas | intros l Hl; apply triple_after_restore; exact Hl]].
+Qed.
+
+(* the C02 analogue of c01_full_from_contracts *)
+Lemma c02_full_from_contracts : forall (conc : Type) (alpha : conc -> astate)
+  (cexec : config -> pass -> conc -> conc -> Prop) (executable : conc -> Prop),
+  (forall c w x x', cexec c w x x' -> exists k, wsem c w (alpha x) (alpha x') k) ->
+  (forall x', c02_post_full (alpha x') = true -> executable x') ->
+  forall n m w, In (n, m, w) wf_table -> c02_exns m = [] ->
+  forall x x', In (alpha x) (full_pre m) -> cexec (m_cfg m) w x x' -> executable x'.
+Proof.
+  intros conc alpha cexec executable Hsim Hpost n m w H HE x x' Hin Hex.
+  destruct (Hsim _ _ _ _ Hex) as [k Hk]. apply Hpost. eapply c02_workflow_full; eauto.
 Qed.
